@@ -146,6 +146,8 @@ def run(ctx):
         "asserts are compiled out (the baseline configuration is RelWithDebInfo = -DNDEBUG)",
     ]
     cov["evaluations"] = len(lines) + cases
+    cov["distinct_nontrivial"] = len(set(lines))
+    cov["rule"] = "correspondence: distinct operation lines (operation + operand intervals) run on range_t<int32_t> and on the generated model; oracle cases (exhaustive small domains) are counted in evaluations only"
     cov["exhaustive_parts"] = "oracle: all a<=b, e in int8_t for scalar operations; all a<=b,c<=d in [-12,12] (thorough: [-36,36]) for interval pairs"
 
 
